@@ -171,6 +171,10 @@ impl<T: FileStore> SendTransaction<T> {
     pub open spec fn file_untouched(&self, o: Self) -> bool {
         self.file_handle == o.file_handle && self.metadata == o.metadata
     }
+    /// the cached checksum, if any, is the checksum of the source file
+    pub open spec fn cache_ok(&self) -> bool {
+        self.checksum matches Some(c) ==> c == (if name_nonempty(self.metadata) { spec_file_checksum(self.src(), self.metadata.checksum_type) } else { 0 })
+    }
     /// C07 first pass: until the EOF is prepared the read position IS the progress figure, i.e. everything below the cursor has been
     /// transmitted once, in order, and nothing above it has been transmitted in the first pass
     pub open spec fn first_pass_inv(&self) -> bool {
@@ -214,6 +218,7 @@ impl<T: FileStore> SendTransaction<T> {
         &&& self.sent_file_size == o.sent_file_size && self.received_file_size == o.received_file_size
         &&& self.metadata == o.metadata && self.send_eof_indication == o.send_eof_indication
         &&& self.file_handle == o.file_handle
+        &&& self.checksum == o.checksum
     }
 }
 
@@ -225,6 +230,7 @@ impl<T: FileStore> SendTransaction<T> {
         &&& self.sent_file_size == o.sent_file_size && self.metadata == o.metadata
         &&& self.file_handle == o.file_handle
         &&& self.delivery_code == o.delivery_code && self.file_status == o.file_status
+        &&& self.checksum == o.checksum
     }
 }
 
@@ -267,6 +273,7 @@ impl<T: FileStore> SendTransaction<T> {
         &&& self.sent_file_size == o.sent_file_size && self.received_file_size == o.received_file_size
         &&& self.metadata == o.metadata && self.send_eof_indication == o.send_eof_indication
         &&& self.file_handle == o.file_handle
+        &&& self.checksum == o.checksum
     }
 }
 
@@ -274,4 +281,17 @@ impl<T: FileStore> SendTransaction<T> {
 /// stands for the iterator chain of send_metadata that turns the filestore requests and user messages into TLV options
 #[verifier::external_body]
 pub fn vx_metadata_options(m: &Metadata) -> (r: Vec<MetadataTLV>)
+{ unimplemented!() }
+
+
+/// the checksum of a file content under a checksum type (Modular: the CCSDS modular checksum, proved for the accumulator under C14;
+/// Null: 0) - uninterpreted here
+pub uninterp spec fn spec_file_checksum(bytes: Seq<u8>, t: ChecksumType) -> u32;
+
+/// cfdp_core::filestore::FileChecksum::checksum on the open source file (ASSUMED: reads the whole file, content untouched)
+#[verifier::external_body]
+pub fn vx_file_checksum(h: &mut File, t: ChecksumType) -> (r: TransactionResult<u32>)
+    ensures
+        file_bytes(*final(h)) == file_bytes(*old(h)),
+        r matches Ok(c) ==> c == spec_file_checksum(file_bytes(*old(h)), t),
 { unimplemented!() }
